@@ -63,8 +63,11 @@ func genC04(t *rapid.T) CaseC04 {
 		cfg.Depth = 2
 	}
 	var c CaseC04
-	if rapid.IntRange(0, 7).Draw(t, "wide") == 0 {
+	if w := rapid.IntRange(0, 9).Draw(t, "wide"); w == 0 {
 		c = CaseC04{Spec: gkit.GenWide(t, cfg)}
+	} else if w == 1 {
+		// directed: the input stream is copied for two or three joins that each merge it with another producer's output
+		c = CaseC04{Spec: gkit.GenTwoJoins(t, cfg)}
 	} else {
 		mode := []string{"pregel", "pregel", "dag", "workflow", "chain"}[rapid.IntRange(0, 4).Draw(t, "mode")]
 		c = CaseC04{Spec: gkit.GenTop(t, mode, cfg)}
